@@ -868,6 +868,100 @@ def display_name_cases(rng, n):
         shutil.rmtree(root, ignore_errors=True)
 
 
+def prepared_cases(rng, n):
+    """tracks built the way an application does, outside the plain-list idiom of the other generators: a
+    prepared FeatureDict whose Position feature got its axis names as a tuple, or as a list the caller extends
+    afterwards for another data set; nodes added in an editing session with the position as one row of a numpy
+    array (TracksController.add_nodes). Then CSV with display names and the internal format, both read back;
+    the registry of the internal format is compared with == (a tuple is not a list).
+    Yields (description, complaint or None)."""
+    import shutil
+    import tempfile
+
+    import networkx as nx
+    import pandas as pd
+    from funtracks.data_model import SolutionTracks
+    from funtracks.features import FeatureDict, Position, Time, TrackletID
+    from funtracks.import_export import export_to_csv, tracks_from_df
+    from funtracks.import_export.internal_format import load_tracks, save_tracks
+    from funtracks.user_actions import UserAddNode
+
+    root = Path(tempfile.mkdtemp(prefix="funverif."))
+
+    def st(t):
+        return ({int(n_): (int(t.get_time(n_)), [float(x) for x in t.get_position(n_)], int(t.get_track_id(n_))) for n_ in t.graph.nodes},
+                sorted((int(a), int(b)) for a, b in t.graph.edges))
+
+    try:
+        for k in range(n):
+            nd = rng.choice([2, 2, 3])
+            names = ["z", "y", "x"][-nd:]
+            how = rng.choice(["plain", "tuple", "shared-list", "default"])
+            nn = rng.randint(2, 6)
+            ids = rng.sample(range(1, 60), nn)
+            g = nx.DiGraph()
+            for j, i_ in enumerate(ids):
+                g.add_node(i_, t=j // 2, pos=[float(rng.randint(0, 40)) + 0.5 * a for a in range(nd)], track_id=j + 1)
+            for j in range(2, nn):
+                if rng.random() < 0.6:
+                    g.add_edge(ids[j - 2], ids[j])
+            desc = {"case": k, "ndim": nd + 1, "axes_given_as": how, "nodes": {int(i_): dict(g.nodes[i_]) for i_ in ids}, "edges": [list(e) for e in g.edges]}
+            try:
+                if how == "default":
+                    for i_ in ids:
+                        del g.nodes[i_]["track_id"]
+                    tr = SolutionTracks(g, ndim=nd + 1, time_attr="t", pos_attr="pos")
+                else:
+                    axes = tuple(names) if how == "tuple" else list(names)
+                    fd = FeatureDict({"t": Time(), "pos": Position(axes=axes), "track_id": TrackletID()},
+                                     time_key="t", position_key="pos", tracklet_key="track_id")
+                    tr = SolutionTracks(g, ndim=nd + 1, features=fd)
+                    if how == "shared-list":   # the caller goes on to describe another data set with the same list
+                        axes.insert(0, "w")
+                        axes.append("c")
+                # editing session: add nodes with array positions
+                added = 0
+                for _ in range(rng.randint(0, 2)):
+                    leaf = rng.choice(sorted(tr.graph.nodes))
+                    new = max(tr.graph.nodes) + rng.randint(1, 5)
+                    row = np.array([[float(rng.randint(0, 40)) + 0.25 * a for a in range(nd)]])[0]
+                    attrs = {"t": int(tr.get_time(leaf)) + 1, "track_id": int(tr.get_next_track_id()), "pos": row}
+                    UserAddNode(tr, node=new, attributes=attrs)
+                    added += 1
+                desc["added_with_array_position"] = added
+                before = st(tr)
+                reg_before = {k_: dict(v) for k_, v in tr.features.items()}
+                # internal format
+                d = root / ("s%d" % k)
+                save_tracks(tr, d)
+                back = load_tracks(d, solution=True)
+                shutil.rmtree(d, ignore_errors=True)
+                bad = None
+                if st(back) != before:
+                    bad = "internal format: nodes / edges / times / positions / track ids differ after save and load: %s -> %s" % (before, st(back))
+                else:
+                    reg_after = {k_: dict(v) for k_, v in back.features.items()}
+                    if reg_after != reg_before:
+                        dk = [k_ for k_ in set(reg_before) | set(reg_after) if reg_before.get(k_) != reg_after.get(k_)]
+                        bad = "internal format: feature registry differs after save and load at %s: %s -> %s" % (
+                            dk, [reg_before.get(k_) for k_ in dk], [reg_after.get(k_) for k_ in dk])
+                if bad is None:
+                    path = root / "d.csv"
+                    export_to_csv(tr, path, use_display_names=True)
+                    df = pd.read_csv(path)
+                    f = tr.features
+                    nm = {"id": "ID", "parent_id": "Parent ID", "time": f[f.time_key].get("display_name", f.time_key),
+                          "pos": list(names), "track_id": f[f.tracklet_key].get("display_name", f.tracklet_key)}
+                    back = tracks_from_df(df, node_name_map=nm)
+                    if st(back) != before:
+                        bad = "CSV with display names: %s read back as %s (header %s)" % (before, st(back), list(df.columns))
+                yield desc, bad
+            except Exception as e:  # noqa: BLE001
+                yield desc, "round trip raised %s: %s" % (type(e).__name__, str(e)[:160])
+    finally:
+        shutil.rmtree(root, ignore_errors=True)
+
+
 def run(ctx):
     n_edit, n_fresh, n_tid = (40, 16, 40) if ctx.quick() else (260, 100, 400)
     n_zero = 8 if ctx.quick() else 40
@@ -886,6 +980,13 @@ def run(ctx):
         stats["display_name_csv_per_axis"] = stats.get("display_name_csv_per_axis", 0) + int(desc["per_axis"])
         if bad:
             violations.append({"what": "CSV with display names: " + bad, "input": desc, "signature": "C14:display-names"})
+    for desc, bad in prepared_cases(ctx.rng, 30 if ctx.quick() else 300):
+        evals += 1
+        stats["prepared_registry_cases"] = stats.get("prepared_registry_cases", 0) + 1
+        stats["prepared_axes_" + desc["axes_given_as"]] = stats.get("prepared_axes_" + desc["axes_given_as"], 0) + 1
+        stats["prepared_array_positions"] = stats.get("prepared_array_positions", 0) + desc.get("added_with_array_position", 0)
+        if bad:
+            violations.append({"what": "application-style construction: " + bad, "input": desc, "signature": "C14:prepared"})
     for label, line, impl in track_id_cases(ctx.rng, n_tid):
         jobs.append(({"kind": "track-id-case"}, label, line, impl))
         evals += 1
@@ -905,7 +1006,7 @@ def run(ctx):
             divergences.append({"what": "%s: %s" % (label, err), "input": dict(ident, line=line[:1500]),
                                 "impl": "(see what)" if callable(want) else want[:1500], "model": mo[:1500]})
     return {"evaluations": evals, "distinct_nontrivial": len(distinct),
-            "rule": "tracks objects from (i) editing sessions E.run_scenario(seed, i): random forest over 1-8 ids from 1..39, 2D/3D, with (5x5 / 3x3x3 masks) or without segmentation, single-key or per-axis positions, scale None/ones/anisotropic, optional iou / ellipse / perimeter / circularity features and custom attributes, then 4-22 random user actions (add/delete node/edge, swap, attribute updates, painting, undo, redo); (ii) fresh construction: 2-9 ids from 1..199, 3-6 frames, forests with divisions and skip edges and isolated nodes, dyadic (70%) or non-dyadic positions, box or C-shaped masks with several integer dtypes, time key 'time' or 't', track/lineage ids either computed or supplied as arbitrary distinct values (60%), registered custom features (int c1, float score) and an unregistered partial attribute c2; (iii) id-0 construction without segmentation: node id 0 as a dividing root / in the middle of a linear track / as a leaf / isolated (cycled), other ids drawn from {1, 2, 7, 999, 1000003, 2^31+5, 2^40+1} and 3..499, a second lineage with a skip edge, single-key or per-axis positions, 2D/3D. Every object is written and re-read in CSV, GEFF and the internal format (evaluation = one object x one format) and the model is run on the same data (X/I/S/C/G/F/T lines); plus direct activate-vs-recompute cases (K). Non-trivial = at least 2 nodes and 1 edge; distinct = distinct (format, nodes, edges, times, positions, track ids).",
+            "rule": "tracks objects from (i) editing sessions E.run_scenario(seed, i): random forest over 1-8 ids from 1..39, 2D/3D, with (5x5 / 3x3x3 masks) or without segmentation, single-key or per-axis positions, scale None/ones/anisotropic, optional iou / ellipse / perimeter / circularity features and custom attributes, then 4-22 random user actions (add/delete node/edge, swap, attribute updates, painting, undo, redo); (ii) fresh construction: 2-9 ids from 1..199, 3-6 frames, forests with divisions and skip edges and isolated nodes, dyadic (70%) or non-dyadic positions, box or C-shaped masks with several integer dtypes, time key 'time' or 't', track/lineage ids either computed or supplied as arbitrary distinct values (60%), registered custom features (int c1, float score) and an unregistered partial attribute c2; (iii) id-0 construction without segmentation: node id 0 as a dividing root / in the middle of a linear track / as a leaf / isolated (cycled), other ids drawn from {1, 2, 7, 999, 1000003, 2^31+5, 2^40+1} and 3..499, a second lineage with a skip edge, single-key or per-axis positions, 2D/3D. (iv) application-style construction (prepared_cases): a prepared FeatureDict whose Position got its axis names as a tuple or as a list the caller extends afterwards, nodes added with numpy-row positions, read back from the internal format (registry compared with ==) and from CSV with display names. Every object is written and re-read in CSV, GEFF and the internal format (evaluation = one object x one format) and the model is run on the same data (X/I/S/C/G/F/T lines); plus direct activate-vs-recompute cases (K). Non-trivial = at least 2 nodes and 1 edge; distinct = distinct (format, nodes, edges, times, positions, track ids).",
             "samples": samples, "divergences": divergences, "violations": violations, "stats": stats}
 
 
